@@ -9,6 +9,7 @@ from harness.worker import Stream
 
 OBLIGATIONS = [
     "PgmVerif.C20_cov_fixed_point", "PgmVerif.C20_cov_unique", "PgmVerif.C20_conditional_is_schur", "PgmVerif.C20_precision_block",
+    "PgmVerif.C20_round_tie",
 ]
 PARTIAL = ["the theorems are about Mathlib matrices over a field; the executable Gauss-Jordan inverse of the model is not proved correct in "
            "general - it validates A * inv(A) = I exactly on every call, and the implementation is compared with it",
